@@ -55,6 +55,9 @@ CHECKS["C19"] = dict(cat="proof", tech=TECH,
 CHECKS["C09"] = dict(cat="proof", tech=TECH,
    text="Representation invariant of the per-hit caches of Antenna and AntennaSystem proved to be established by the constructor and preserved by every query, receive and clear from arbitrary states (so under every history), with the triggered-subsequence, is_hit and clear postconditions; structure of full_waveform (long grid, superposition), single noise master, lead-in grid and front-end composition.",
    note=PROOF_NOTE + " Cache list lengths are bounded (B); known finding D11 (stale cached waveform after a later receive) is listed in known_findings.json.", ref="§5 C09")
+CHECKS["C10"] = dict(cat="proof", tech=TECH,
+   text="Contract on EventKernel.event against fake generator/tracer/antenna/writer components with symbolic weights, viewing angles and model rejections: one receive per ray solution of each accepted particle, ray_paths/polarizations aligned with the received signals, EmptySignal on the delayed grid off-cone, propagate called with the kernel's interpolation setting, trigger forms, events_thrown; plus the interface obligation that every shipped path/tracer class accepts the kernel's keyword set.",
+   note=PROOF_NOTE + " The scenario size is bounded (B); third-party components are uninterpreted (A4).", ref="§5 C10")
 NOT_YET = {}
 def main():
     props = [json.loads(l) for l in open(os.path.join(HERE, "properties.jsonl"))]
